@@ -1,3 +1,4 @@
 SPECIFICATION Spec
 INVARIANT OnlyNarrows
 INVARIANT BothPathsCount
+INVARIANT RenameIsLocal
